@@ -48,3 +48,18 @@ Theorem C05_mp11_order_refuted_at_counter_turn :
   rev (g_tr g) = [Res 3; Res 1].
 Proof. exact mp11_pool_overtakes_at_wrap. Qed.
 Print Assumptions C05_mp11_order_refuted_at_counter_turn.
+
+(* ---- finding F22: row-level deferral (Defer functor) in backmp11 re-offers same-type occurrences in reverse order ---- *)
+(* Busy defers e4 by a Defer row, e6 leaves Busy, Ready handles e4.  e4 with payloads 1, 2, 3, then e6: the model of
+   backmp11 - like the library (pinned replay F22) - runs Ready's action for payloads 3, 2, 1; back runs 1, 2, 3.
+   The order clause of the property is refuted for backmp11 on this input; state-level deferral is not affected. *)
+Example C05_mp11_action_deferred_order_refuted :
+  let root := Machine [State KSimple None [] [] [] 0; State KSimple None [] [] [] 0] [0]
+                      [Row 10 0 (TrEv 6) (TgState 1) false ActCall None; Row 11 0 (TrEv 4) TgNone false ActDefer None;
+                       Row 13 1 (TrEv 4) TgNone false ActCall None] [] HNone in
+  let md := MDef root [] in
+  let ops := [OStart [] []; OProcess (Evt 4 1) [] []; OProcess (Evt 4 2) [] []; OProcess (Evt 4 3) [] []; OProcess (Evt 6 4) [] []] in
+  let actions cf := flat_map (fun it => match it with Cb KAction _ 13 ev _ _ => [e_pay ev] | _ => [] end)
+                             (fst (nth 4 (run cf md ops) ([], []))) in
+  actions (Cfg Mp11 false 0 false) = [3; 2; 1] /\ actions (Cfg Back false 0 false) = [1; 2; 3].
+Proof. vm_compute. split; reflexivity. Qed.
